@@ -602,14 +602,13 @@ func (s *Server) processFilteringAfterResponse(dctx *dnsContext) (rc resultCode)
 		filtering.RewrittenRule,
 		filtering.FilteredSafeSearch:
 
-		pctx := dctx.proxyCtx
-		if dctx.origQuestion.Name == "" || len(pctx.Res.Answer) == 0 {
+		if dctx.origQuestion.Name == "" {
 			// origQuestion is set in case we get only CNAME without IP from
-			// rewrites table.  There is also nothing to prepend the CNAME to
-			// if the upstream hasn't returned any records.
+			// rewrites table.
 			return resultCodeSuccess
 		}
 
+		pctx := dctx.proxyCtx
 		pctx.Req.Question[0], pctx.Res.Question[0] = dctx.origQuestion, dctx.origQuestion
 
 		rr := s.genAnswerCNAME(pctx.Req, res.CanonName)
